@@ -154,5 +154,6 @@ TECHNIQUE = ("property-based testing (Hypothesis) against an independent VT form
 LEVEL_TEXT = ("Generated search: 6,000 / 80,000 strands (incl. empty, length 1, long ascent-rich) x check lengths "
               "1..12 against an independent implementation of the stated formula; for 800 / 10,000 strands of length "
               "<= 40 every single substitution and every single C/G/T insertion or deletion is enumerated and must "
-              "change the check and be rejected by decode with the original check.")
+              "change the check and be rejected by decode with the original check."
+              ' A fixed family of strands of 135,000..1,200,000 nt with checks of 18..40 symbols covers position sums beyond 2^32.')
 LEVEL_NOTE = "Trusted: the 10-line reference formula in pbt/oracles.py; decode on the complete order-1 graph."
